@@ -426,3 +426,340 @@ func reloadRefusedBeforeTheStopActionIsWritten(c *Ctx) {
 }
 
 var _ = token.NoPos
+
+// =====================================================================================================================
+// Round 16, third wave (sixteenth seeds, ten properties)
+
+func runRound22b(c *Ctx, spec *PropSpec) {
+	switch spec.ID {
+	case "C01":
+		tarsForwardNeverWritesTheRetainedPackage(c)
+	case "C05":
+		edfGivesUpOnlyWhenNobodyIsHealthy(c)
+	case "C09":
+		http1GoAwayToldBeforeTheHandOver(c)
+	case "C11":
+		relayedWriteDequeuedAfterTheDial(c)
+	case "C13":
+		sdsProviderSecretsNotWrittenFromTheContext(c)
+	case "C18":
+		// seed C18-16: a header block split across reads parses as the reference parses it - C07.B2m under this id
+		c07ReparseRestoresFramerState(c, "C18.W29")
+	case "C20":
+		rawRedactorVisitsEveryElement(c)
+	}
+}
+
+// ---------------------------------------------------------------------------------------------------------------------
+// C20.R15 (seed C20-16): the raw-JSON redactor visits every element. `changed = changed || redactJSONValue(sub)` stops
+// descending into an array once one element was redacted: the inline keys of the second and later elements are dumped.
+// Clause: no recursive call of redactJSONValue lies under a condition that derives from the result of a recursive call
+// (the accumulated flag).
+func rawRedactorVisitsEveryElement(c *Ctx) {
+	const rule = "C20.R15"
+	c.Rule(rule, "redactJSONValue descends into every member and element: no recursive call is guarded by the flag accumulated from earlier calls", 2)
+	fn := c.F("pkg/configmanager", "redactJSONValue")
+	if fn == nil {
+		c.Unresolved(rule, "configmanager.redactJSONValue")
+		return
+	}
+	isSelf := func(v ssa.Value) bool {
+		cl, ok := v.(*ssa.Call)
+		return ok && cl.Call.StaticCallee() == fn
+	}
+	n := 0
+	ord := ordCounter{}
+	forEachInstr(fn, false, func(_ *ssa.Function, in ssa.Instruction) {
+		cl, ok := in.(*ssa.Call)
+		if !ok || cl.Call.StaticCallee() != fn {
+			return
+		}
+		n++
+		bad := false
+		for _, g := range guardsAt(cl.Block()) {
+			if derivesFrom(g.Cond, isSelf) {
+				// a guard on the result of THIS call's predecessor results; the loop's own range test never derives from a call
+				bad = true
+			}
+		}
+		c.Check(rule, ord.next(fn, "every-element-visited"), cl.Pos(), !bad, "the recursive call is unconditional with respect to earlier results",
+			"redactJSONValue skips a member or element once an earlier one reported a change (a short-circuit on the accumulated flag): only the first private key of an array of tls contexts - several clusters of static_resources, several agents of an extend config - is replaced, the others are dumped")
+	})
+	if n < 2 {
+		c.Unresolved(rule, fmt.Sprintf("recursive calls of redactJSONValue: %d found, 2 expected (members, elements)", n))
+	}
+}
+
+// ---------------------------------------------------------------------------------------------------------------------
+// C05.R13 (seed C05-16): the weighted balancers answer "no host" only where they know that nobody is healthy. The
+// weighted pick loop of EdfLoadBalancer.ChooseHost is bounded by a number of tries that is sufficient for fixed weights
+// only; the load-dependent policies (least request, least connection, peak EWMA, slow start) scale a busy host's weight
+// far below 1/100 of an idle unhealthy one, the loop runs out, and only the health-aware fallback finds the healthy host.
+// Clause: every return of the nil constant in EdfLoadBalancer.ChooseHost is dominated by an edge that establishes it:
+// size == 0, a false Health() of the only host, or a nil answer of firstHealthyHost.
+func edfGivesUpOnlyWhenNobodyIsHealthy(c *Ctx) {
+	const rule = "C05.R13"
+	c.Rule(rule, "EdfLoadBalancer.ChooseHost returns the nil constant only under size == 0, the only host's Health() == false or firstHealthyHost == nil (exhausting the weighted tries falls back to the health-aware scan)", 2)
+	fn := c.M("pkg/upstream/cluster", "EdfLoadBalancer", "ChooseHost")
+	if fn == nil {
+		c.Unresolved(rule, "EdfLoadBalancer.ChooseHost")
+		return
+	}
+	n := 0
+	ord := ordCounter{}
+	for _, in := range instrsWhere(fn, isReturn) {
+		r := in.(*ssa.Return)
+		if len(r.Results) != 1 || !isNilConst(unspill(r, 0)) {
+			continue
+		}
+		n++
+		why := ""
+		for _, g := range guardsAt(in.Block()) {
+			switch x := g.Cond.(type) {
+			case *ssa.BinOp:
+				if k, isK := constInt(x.Y); isK && k == 0 && ((x.Op == token.EQL && g.True) || (x.Op == token.NEQ && !g.True)) {
+					if cl, isC := x.X.(*ssa.Call); isC && methodName(cl.Common()) == "Size" {
+						why = "size == 0"
+					}
+				}
+				if isNilConst(x.Y) && ((x.Op == token.EQL && g.True) || (x.Op == token.NEQ && !g.True)) {
+					if cl, isC := x.X.(*ssa.Call); isC && strings.HasSuffix(calleeName(cl.Common()), "firstHealthyHost") {
+						why = "firstHealthyHost == nil"
+					}
+				}
+			case *ssa.Call:
+				if methodName(x.Common()) == "Health" && !g.True {
+					why = "Health() == false"
+				}
+			}
+		}
+		c.Check(rule, ord.next(fn, "nil-only-when-nobody-healthy"), nearestPos(in), why != "", "under "+why,
+			"EdfLoadBalancer.ChooseHost can return no host without having established that none is healthy (the weighted pick loop ran out of tries): with a load-dependent weight - least request, least connection, peak EWMA, slow start - a busy healthy host is picked far less often than an idle unhealthy heavy one, the bounded loop sees only the unhealthy host and the request gets no host although a healthy member exists")
+	}
+	if n < 2 {
+		c.Unresolved(rule, fmt.Sprintf("returns of the nil constant in EdfLoadBalancer.ChooseHost: %d found, 2 expected", n))
+	}
+}
+
+// ---------------------------------------------------------------------------------------------------------------------
+// C01.R34 (seed C01-16): forwarding a tars package never writes the retained package. The frame keeps rawData for the
+// next encode (a retry encodes the same frame again); patching the request id into it in place - when the new field is
+// not wider - leaves the frame with a shrunk package behind a slice of the old length: the second forward carries 1-3
+// stale trailing bytes and a length prefix that counts them. Clause: in the encoder functions of the tars codec no value
+// derived from a rawData field or a parameter named rawData is the destination of copy, the base of append, or the
+// target of an element store.
+func tarsForwardNeverWritesTheRetainedPackage(c *Ctx) {
+	const rule = "C01.R34"
+	c.Rule(rule, "tars: the encoder only reads the retained package (no copy into, append onto, or element store into rawData)", 1)
+	pkg := "pkg/protocol/xprotocol/tars"
+	isRaw := func(v ssa.Value) bool {
+		if p, ok := v.(*ssa.Parameter); ok && p.Name() == "rawData" {
+			return true
+		}
+		_, f, _, isF := loadedField(v)
+		return isF && f == "rawData"
+	}
+	fromRaw := func(v ssa.Value) bool {
+		// through slicing and phis only: a fresh make / append(make(...)) is not the retained storage
+		seen := map[ssa.Value]bool{}
+		var walk func(v ssa.Value) bool
+		walk = func(v ssa.Value) bool {
+			if v == nil || seen[v] {
+				return false
+			}
+			seen[v] = true
+			if isRaw(v) {
+				return true
+			}
+			switch x := v.(type) {
+			case *ssa.Slice:
+				return walk(x.X)
+			case *ssa.Phi:
+				for _, e := range x.Edges {
+					if walk(e) {
+						return true
+					}
+				}
+			case *ssa.Call:
+				if b, ok := x.Call.Value.(*ssa.Builtin); ok && b.Name() == "append" {
+					return walk(x.Call.Args[0])
+				}
+			}
+			return false
+		}
+		return walk(v)
+	}
+	n := 0
+	for _, fn := range c.PkgFuncs(pkg) {
+		if len(fn.Blocks) == 0 || !(strings.Contains(strings.ToLower(fn.Name()), "encode") || fn.Name() == "forwardPackage") {
+			continue
+		}
+		ord := ordCounter{}
+		reads := false
+		forEachInstr(fn, false, func(_ *ssa.Function, in ssa.Instruction) {
+			bad := ""
+			switch x := in.(type) {
+			case *ssa.Call:
+				if b, ok := x.Call.Value.(*ssa.Builtin); ok {
+					if b.Name() == "copy" && fromRaw(x.Call.Args[0]) {
+						bad = "copy into it"
+					}
+					if b.Name() == "append" && fromRaw(x.Call.Args[0]) {
+						bad = "append onto a slice of it"
+					}
+					if (b.Name() == "append" || b.Name() == "copy") && len(x.Call.Args) > 1 && fromRaw(x.Call.Args[1]) {
+						reads = true
+					}
+				}
+			case *ssa.Store:
+				if ia, ok := x.Addr.(*ssa.IndexAddr); ok && fromRaw(ia.X) {
+					bad = "element store"
+				}
+			}
+			if bad != "" {
+				n++
+				c.Fail(rule, ord.next(fn, "retained-package-only-read"), in.Pos(),
+					fn.String()+" writes the retained tars package ("+bad+"): the frame keeps rawData for the next encode, so after an in-place patch of the request id a retry forwards a shrunk package followed by stale trailing bytes, with a length prefix that counts them")
+			}
+		})
+		if reads {
+			n++
+			c.Pass(rule, funcKey(fn)+":retained-package-read", fn.Pos(), "the retained package is only a source of append / copy")
+		}
+	}
+	if n == 0 {
+		c.Unresolved(rule, "no encoder function of the tars codec reads rawData")
+	}
+}
+
+// ---------------------------------------------------------------------------------------------------------------------
+// C09.R19 (seed C09-16): the pool is told that a connection goes away before the response is handed over. Handing the
+// response over destroys the client stream, and the destroy decides - from the go-away flag of the moment - whether the
+// connection goes back to the idle list. Told afterwards, a connection whose upstream answered `Connection: close` (or
+// sent surplus bytes) is already idle again: nobody closes it, it stays counted, and the next request is leased a
+// connection the peer is closing. Clause: no OnGoAway call of clientStreamConnection.serve can follow a handleResponse
+// call within one turn of the serve loop (back edges are not followed).
+func http1GoAwayToldBeforeTheHandOver(c *Ctx) {
+	const rule = "C09.R19"
+	c.Rule(rule, "HTTP/1 client: OnGoAway is raised before the response is handed over (the stream's destroy reads the flag when it decides on re-pooling)", 1)
+	fn := c.M("pkg/stream/http", "clientStreamConnection", "serve")
+	if fn == nil {
+		c.Unresolved(rule, "clientStreamConnection.serve")
+		return
+	}
+	hands := callsIn(fn, false, calledAs("handleResponse"))
+	n := 0
+	ord := ordCounter{}
+	for _, cs := range callsIn(fn, false, calledAs("OnGoAway")) {
+		n++
+		late := false
+		for _, h := range hands {
+			if reachesWithinTheIteration(h.Instr, cs.Instr) {
+				late = true
+			}
+		}
+		c.Check(rule, ord.next(fn, "go-away-before-hand-over"), cs.Instr.Pos(), !late, "no handleResponse call can be followed by this OnGoAway in the same turn of the loop",
+			"clientStreamConnection.serve raises OnGoAway only after handleResponse: the hand-over has destroyed the stream with the flag still down, so the connection is back in the idle list when the pool hears that it goes away - it is never closed, stays counted, and the next request is leased a connection the upstream is closing")
+	}
+	if n == 0 || len(hands) == 0 {
+		c.Unresolved(rule, "OnGoAway / handleResponse calls in clientStreamConnection.serve")
+	}
+}
+
+// ---------------------------------------------------------------------------------------------------------------------
+// C11.O31 (seed C11-16): a response relayed to the new process is taken out of the write queue only when there is a
+// socket to send it on. transferBuildIoBuffer empties c.writeBuffers; called before the dial of the transfer socket, a
+// dial that fails (accept backlog of the new process full during a mass hand-over) drops the response - later ones
+// still arrive, this one is lost. Clause: in transferWrite the net.Dial call dominates the transferBuildIoBuffer call.
+func relayedWriteDequeuedAfterTheDial(c *Ctx) {
+	const rule = "C11.O31"
+	c.Rule(rule, "transferWrite takes the pending response out of the write queue only after the transfer socket was dialed", 1)
+	fn := c.F("pkg/network", "transferWrite")
+	if fn == nil {
+		c.Unresolved(rule, "network.transferWrite")
+		return
+	}
+	dials := callsIn(fn, false, func(cc *ssa.CallCommon) bool { return calleeName(cc) == "net.Dial" })
+	builds := callsIn(fn, false, calledAs("transferBuildIoBuffer"))
+	if len(dials) == 0 || len(builds) == 0 {
+		c.Unresolved(rule, "net.Dial / transferBuildIoBuffer in transferWrite")
+		return
+	}
+	ord := ordCounter{}
+	for _, b := range builds {
+		ok := false
+		for _, d := range dials {
+			if instrDominates(d.Instr, b.Instr) {
+				ok = true
+			}
+		}
+		c.Check(rule, ord.next(fn, "dequeued-after-the-dial"), b.Instr.Pos(), ok, "net.Dial dominates transferBuildIoBuffer",
+			"transferWrite empties the connection's write queue (transferBuildIoBuffer) before it has dialed the transfer socket: when the dial fails the response that was taken out is dropped - one in-flight response of a handed-over connection is lost across the hot upgrade while later ones still arrive")
+	}
+}
+
+// reachesWithinTheIteration: b can execute after a without a back edge of a loop being taken in between.
+func reachesWithinTheIteration(a, b ssa.Instruction) bool {
+	if a.Block() == b.Block() {
+		return instrIndex(a) < instrIndex(b)
+	}
+	seen := map[*ssa.BasicBlock]bool{}
+	work := []*ssa.BasicBlock{a.Block()}
+	for len(work) > 0 {
+		x := work[len(work)-1]
+		work = work[:len(work)-1]
+		for _, s := range x.Succs {
+			if s.Dominates(x) || seen[s] { // back edge
+				continue
+			}
+			if s == b.Block() {
+				return true
+			}
+			seen[s] = true
+			work = append(work, s)
+		}
+	}
+	return false
+}
+
+// ---------------------------------------------------------------------------------------------------------------------
+// C13.R35 (seed C13-16): what an sds provider remembers comes from the sds server, not from a listener's context. The
+// provider object is process-wide and outlives every listener update; update() builds the tls context of the moment from
+// the secrets (p.info) and the context's config. Writing a field of p.info from the config - the context's static ca_cert
+// as Validation, "no copy on every push" - makes the value stick: a later update that removes ca_cert still verifies
+// clients against the removed CA. Clause: sdsProvider.update stores into no field of the object p.info points to.
+func sdsProviderSecretsNotWrittenFromTheContext(c *Ctx) {
+	const rule = "C13.R35"
+	c.Rule(rule, "sdsProvider.update never writes the provider's long-lived secret info (p.info) - a per-context value such as the static ca_cert goes into a copy", 1)
+	fn := c.M("pkg/mtls", "sdsProvider", "update")
+	if fn == nil {
+		c.Unresolved(rule, "sdsProvider.update")
+		return
+	}
+	reads := 0
+	bad := token.NoPos
+	forEachInstr(fn, false, func(_ *ssa.Function, in ssa.Instruction) {
+		if u, ok := in.(*ssa.UnOp); ok && u.Op == token.MUL {
+			if _, f, _, isF := fieldAddrInfo(u.X); isF && f == "info" {
+				reads++
+			}
+		}
+		st, ok := in.(*ssa.Store)
+		if !ok {
+			return
+		}
+		fa, isFA := st.Addr.(*ssa.FieldAddr)
+		if !isFA {
+			return
+		}
+		if _, f, _, isF := loadedField(fa.X); isF && f == "info" {
+			bad = st.Pos()
+		}
+	})
+	if reads == 0 {
+		c.Unresolved(rule, "no read of sdsProvider.info in update")
+		return
+	}
+	c.Check(rule, funcKey(fn)+":secrets-not-written-from-the-context", fn.Pos(), bad == token.NoPos, "no store through p.info",
+		"sdsProvider.update stores into the provider's long-lived secret info (at "+c.pos(bad)+"): the provider is shared by every later manager of the listener, so a value taken from one context's configuration - its static ca_cert - outlives that configuration; after an update that removes ca_cert, client certificates of the removed CA are still accepted")
+}
